@@ -15,7 +15,7 @@ import warnings
 
 import numpy as np
 
-from ..common import fingerprint, library_raised
+from ..common import fingerprint, library_raised, same_observable
 from ..tlc import TLCError
 
 PROPS = ["ArgumentsUnchanged", "SameCallTwiceSameResult", "ResultIsNew"]
@@ -241,7 +241,7 @@ def _replay_subtree(ctx, case):
         if maps_fingerprint() != maps0:
             fails.append(("mutated:map:" + e["op"], "history [%s]: the symbol map passed to the call (it carries entries the receiver does not use, and is reused by the caller) was modified: now %s" % (desc[-600:], {k_: {str(s_): v_ for s_, v_ in m_.items()} for k_, m_ in shared_maps().items()})))
             return False
-        changed = [i for i, (x, y) in enumerate(zip(fps, after)) if x != y]
+        changed = [i for i, (x, y) in enumerate(zip(fps, after)) if not same_observable(x, y)]
         if changed:
             names = [describe(e["pre"][i]["v"]) if i < len(e["pre"]) else "the operator passed to the query" for i in changed]
             role = ["argument %d" % (e["args"].index(i + 1) + 1) if (i + 1) in e["args"] else "a live object that was not even an argument" for i in changed]
@@ -250,7 +250,7 @@ def _replay_subtree(ctx, case):
         if e["rep"]:
             first = results.get(("last", len(hist)))
             fp = fingerprint(res) if raised is None else ("raised", type(raised).__name__)
-            if first is not None and first != fp:
+            if first is not None and not same_observable(first, fp):
                 fails.append(("repeat:" + e["op"], "history [%s]: the same call on the same arguments gave a different result the second time" % desc))
                 return False
         else:
